@@ -127,6 +127,7 @@ struct World
     std::map<uint64_t, std::unique_ptr<versym_section_accessor>>    vs;
     std::map<uint64_t, std::unique_ptr<versym_r_section_accessor>>  vn;
     std::map<uint64_t, std::unique_ptr<versym_d_section_accessor>>  vd;
+    std::map<uint64_t, std::pair<unsigned, std::unique_ptr<string_section_accessor>>> str;   // long-lived string accessors
 };
 
 void put_b( FILE* out, int tag, std::initializer_list<unsigned long long> vals,
@@ -278,6 +279,8 @@ bool handle_ok( const World& w, const std::string& op, const std::vector<std::st
         return w.dyn.count( k ) != 0;
     if ( op == "notenum" || op == "noteget" )
         return w.note_sec.count( k ) != 0 || w.note_seg.count( k ) != 0;
+    if ( op == "strgetk" || op == "straddk" )
+        return w.str.count( k ) != 0;
     if ( op == "noteadd" || op == "noteaddself" )
         return w.note_sec.count( k ) != 0;
     if ( op == "modnum" || op == "modget" || op == "modfind" || op == "modadd" )
@@ -501,7 +504,7 @@ bool exec_one( std::map<uint64_t, World>& worlds, uint64_t& cur, const Tokens& t
                 { "relget", { 1 } }, { "relgetf", { 1 } }, { "relset", { 1 } }, { "relswap", { 1 } },
                 { "relnum", { 1 } }, { "dynnew", { 2 } }, { "arradd", { 1 } }, { "arrget", { 1 } },
                 { "arrnum", { 1 } }, { "modnew", { 2 } }, { "vsnew", { 2 } }, { "vnnew", { 2 } },
-                { "vdnew", { 2 } } };
+                { "vdnew", { 2 } }, { "strnew", { 2 } } };
             auto sa = secargs.find( op );
             bool bad = false;
             if ( sa != secargs.end() ) {
@@ -604,6 +607,28 @@ bool exec_one( std::map<uint64_t, World>& worlds, uint64_t& cur, const Tokens& t
             std::string             str = unhex( t[2] );
             Elf_Word                r   = a.add_string( str );
             fprintf( out, "n %d %u %u\n", T_STRADD, i, (unsigned)r );
+        }
+        else if ( op == "strnew" ) {
+            unsigned i = (unsigned)num( t[2] );
+            w.str[num( t[1] )] = std::make_pair( i, std::unique_ptr<string_section_accessor>(
+                                                        new string_section_accessor( w.el->sections[i] ) ) );
+        }
+        else if ( op == "strgetk" ) {
+            auto&       a   = w.str.at( num( t[1] ) );
+            uint64_t    idx = num( t[2] );
+            const char* r   = a.second->get_string( (Elf_Word)idx );
+            fprintf( out, "b %d %u %llu : ", T_STRGET, a.first, (unsigned long long)idx );
+            if ( r == nullptr )
+                fputs( "null", out );
+            else
+                put_hex( out, r, strlen( r ) );
+            fputc( '\n', out );
+        }
+        else if ( op == "straddk" ) {
+            auto&       a   = w.str.at( num( t[1] ) );
+            std::string str = unhex( t[2] );
+            Elf_Word    r   = a.second->add_string( str );
+            fprintf( out, "n %d %u %u\n", T_STRADD, a.first, (unsigned)r );
         }
         else if ( op == "straddself" ) {
             // add_string( get_string( idx ) ): the argument points into the section's own buffer
